@@ -215,6 +215,10 @@ def family(rnd, g, base=None):
     r = respell(rnd, t)
     if r:
         fam.append(r)
+    # the same results labelled by a trailing file name (must not rub off on the unlabelled keys)
+    fam.append(t + "/" + rnd.choice(["out.txt", "res.json", "x.pickle", "r.tar.gz"]))
+    if len(pf) > 1 and rnd.random() < 0.5:
+        fam.append(rnd.choice(pf[1:]) + "/" + rnd.choice(["p.txt", "q.b"]))
     seen, out = set(), []
     for q in fam:
         if q not in seen:
